@@ -228,6 +228,9 @@ let () =
               let db = rep s clause in let evs = rep s levent in
               let (n, ok) = check_analyses db evs in
               Printf.sprintf "%d %s" (int_of_n n) (b ok)
+            | "softkeep" ->
+              (* levents -> nothing decided before a soft requirement was tried is ever undone *)
+              let evs = rep s levent in b (soft_keep evs)
             | "unsolv" ->
               (* db levents conf core -> conflict-equals-the-model side-conditions-of-core_unsat *)
               let db = rep s clause in let evs = rep s levent in
